@@ -184,7 +184,12 @@ func parseGroup(node *yaml.Node, schema Schema, offsetLine, offsetColumn int, co
 				}
 				return group
 			}
-			nodes := mappingNodes(entry.val)
+			labelsNode := entry.val
+			if labelsNode.Alias != nil {
+				// `labels: *anchor`: the labels live in the anchored mapping, the alias node itself has no content.
+				labelsNode = labelsNode.Alias
+			}
+			nodes := mappingNodes(labelsNode)
 			if ok, err, _ := validateStringMap(
 				"labels",
 				nodes,
@@ -210,7 +215,7 @@ func parseGroup(node *yaml.Node, schema Schema, offsetLine, offsetColumn int, co
 					return group
 				}
 			}
-			group.Labels = newYamlMap(entry.key, entry.val, offsetLine, offsetColumn, contentLines)
+			group.Labels = newYamlMap(entry.key, labelsNode, offsetLine, offsetColumn, contentLines)
 		case "rules":
 			if !isTag(entry.val.ShortTag(), seqTag) {
 				group.Error = ParseError{
